@@ -597,12 +597,16 @@ def mapping_stream(chk, n):
             if rng.random() < 0.6:
                 open(os.path.join(root, "src", u), "w").write("x\n")
         sd = os.path.join(root, "src") if rng.random() < 0.5 else None
+        # with -p the mapped value may be the build-machine path <prefix>/<path>: the record is mapped first, then the prefix is removed
+        pd = rng.choice([None, "/builds/worker/checkout", "/builds/worker/checkout", "C:/proj"])
         mapping, recs, intent = {}, [], []
         for u in rng.sample(["foo/bar.c", "lib/util.h", "gone/missing.c", "main.c"], rng.randrange(1, 4)):
             keys = rng.sample(["C:/obj/dist/include/" + u.replace("/", "_"), "gen/obj/" + u.replace("/", "_"), "Build/" + u, "z:/w/" + u], rng.randrange(1, 3))
             spelt = [u] if rng.random() < 0.7 else []
+            if pd and rng.random() < 0.5:
+                spelt.append(pd + "/" + u)
             for key in keys:
-                mapping[key] = rng.choice([u, u, "./" + u])
+                mapping[key] = rng.choice([pd + "/" + u, pd + "/" + u, pd + "//" + u, u] if pd else [u, u, "./" + u])
                 spelt.append(rng.choice([c12.flip_first(key), c12.flip_first(key), key]))
             if rng.random() < 0.3:
                 spelt.append("Unmapped/" + u)
@@ -614,7 +618,9 @@ def mapping_stream(chk, n):
         json.dump(mapping, open(mfile, "w"))
         info = os.path.join(run_dir, "in.info")
         open(info, "w").write(c12.render_lcov(recs))
-        args = [exe, info, "--path-mapping", mfile] + (["-s", sd] if sd else []) + ["-t", "lcov"]
+        args = [exe, info, "--path-mapping", mfile] + (["-s", sd] if sd else []) + (["-p", pd] if pd else []) + ["-t", "lcov"]
+        dist["with_prefix_dir"] += bool(pd)
+        dist["mapped_values_starting_with_prefix"] += sum(1 for v in mapping.values() if pd and v.startswith(pd + "/"))
         p = vlib.sh(args, cwd=run_dir, timeout=120)
         chk.count()
         replay = {"kind": "oracle", "engine": "cli-mapping", "args": args[1:], "path_mapping": mapping, "input": c12.render_lcov(recs), "lcov": p.stdout[-3000:]}
@@ -625,7 +631,7 @@ def mapping_stream(chk, n):
         got = lcov_report(p.stdout)
         if got != want:
             chk.violation(dict(replay, reported=sorted(got.elements()), expected=sorted(want.elements()),
-                               clause="a record whose path is a --path-mapping key (up to the case of its first letter) is reported under the mapped path, data unchanged"), tag="cli-mapping")
+                               clause="a record whose path is a --path-mapping key (up to the case of its first letter) is reported under the mapped path with the prefix directory removed, data unchanged"), tag="cli-mapping")
         else:
             chk.nontrivial(("cli-mapping", sorted(mapping.items()), [k for k, _ in recs], bool(sd)))
         dist["cases"] += 1
@@ -698,7 +704,7 @@ def run(chk):
                        "then the glob partition (the --ignore half inside the known class ignore-prunes-partial-path-index must be exactly the recorded wrong output). "
                        "(5) CLI, -p prefixes that exist locally as a symlink, a relative path, with '..' or './' segments, or not at all: removed as the literal "
                        "leading components of the recorded paths, also when the records write the prefix part itself with '//' or '/./'. "
-                       "(6) CLI, --path-mapping: keys and records that differ only in the case of the first letter (both directions) next to plain spellings: reported under the mapped path. "
+                       "(6) CLI, --path-mapping: keys and records that differ only in the case of the first letter (both directions) next to plain spellings, values either repository paths or build-machine paths under the -p prefix: reported under the mapped path with the prefix removed. "
                        "non-trivial = a rewrite case with at least one reported record that passed every oracle, or a facts pair on which model and std agree; distinct by content")
     chk.cov["trusted_base"] = ["Coq kernel; vm_compute for the correspondence",
                                "globset crate (its verdict on every candidate path enters the model as data; the theorems quantify over all verdict functions)",
